@@ -453,6 +453,34 @@ pub open spec fn to_string_ok(buf: Seq<u8>, start: int, s: Seq<char>, i: int) ->
     &&& utf8_decode(buf.subrange(start, i)) == Some(s)
 }
 
+/// no NUL-terminated valid UTF-8 string starts at `start`
+pub open spec fn no_string_at(buf: Seq<u8>, start: int) -> bool {
+    forall|s: Seq<char>, i: int| !#[trigger] to_string_ok(buf, start, s, i)
+}
+/// what an `Err` of `Convert::to_string` means
+pub open spec fn to_string_err(buf: Seq<u8>, start: int) -> bool {
+    (forall|j: int| start <= j < buf.len() ==> buf[j] != 0)
+    || (exists|i: int| start <= i < buf.len() && buf[i] == 0 && (forall|j: int| start <= j < i ==> buf[j] != 0)
+        && utf8_decode(buf.subrange(start, i)) is None)
+}
+pub proof fn lemma_to_string_err(buf: Seq<u8>, start: int)
+    requires to_string_err(buf, start),
+    ensures no_string_at(buf, start),
+{
+    assert forall|s: Seq<char>, i: int| !#[trigger] to_string_ok(buf, start, s, i) by {
+        if to_string_ok(buf, start, s, i) {
+            if forall|j: int| start <= j < buf.len() ==> buf[j] != 0 {
+                assert(buf[i] != 0);
+            } else {
+                let i0 = choose|i0: int| start <= i0 < buf.len() && buf[i0] == 0 && (forall|j: int| start <= j < i0 ==> buf[j] != 0)
+                    && utf8_decode(buf.subrange(start, i0)) is None;
+                if i < i0 { assert(buf[i] != 0); }
+                if i0 < i { assert(buf[i0] != 0); }
+            }
+        }
+    }
+}
+
 /// big-endian 16-bit number at offset `at`
 pub open spec fn be16(buf: Seq<u8>, at: int) -> u16 { (buf[at] as u16 * 256 + buf[at + 1] as u16) as u16 }
 
@@ -554,13 +582,260 @@ pub open spec fn enc(p: PktV) -> Seq<u8> {
     }
 }
 
+// ---- C11 round trip: decoding an encoding returns the identical packet ---------------------------
+
+/// ASSUMPTION (std): `usize::to_string` yields a non-empty string of decimal digits that `str::parse::<usize>` maps back
+pub axiom fn axiom_dec_str(n: usize)
+    ensures
+        dec_str(n).len() > 0,
+        forall|i: int| 0 <= i < dec_str(n).len() ==> '0' <= #[trigger] dec_str(n)[i] <= '9',
+        parse_spec::<usize>(dec_str(n)) == Some(n);
+/// ASSUMPTION (std): `str::to_lowercase` leaves a string of ASCII characters without upper-case letters unchanged
+pub axiom fn axiom_lower_fixed(s: Seq<char>)
+    requires forall|i: int| 0 <= i < s.len() ==> (#[trigger] s[i] as u32) < 128 && !('A' <= s[i] <= 'Z'),
+    ensures str_lower(s) == s;
+
+/// a byte string without NUL
+pub open spec fn nul_free(b: Seq<u8>) -> bool { forall|i: int| 0 <= i < b.len() ==> #[trigger] b[i] != 0 }
+
+/// the strings of a packet contain no NUL (stated on their UTF-8 bytes; U+0000 is the only character whose encoding has a zero byte)
+pub open spec fn strings_nul_free(p: PktV) -> bool {
+    match p {
+        PktV::Rrq { filename, mode, options } => nul_free(utf8_encode(filename)) && nul_free(utf8_encode(mode)),
+        PktV::Wrq { filename, mode, options } => nul_free(utf8_encode(filename)) && nul_free(utf8_encode(mode)),
+        PktV::Error { code, msg } => nul_free(utf8_encode(msg)),
+        _ => true,
+    }
+}
+
+/// an encoded NUL-free string followed by NUL at `start` is what `Convert::to_string` finds there, and nothing else
+pub proof fn lemma_string_at(buf: Seq<u8>, start: int, s: Seq<char>, s2: Seq<char>, i2: int)
+    requires
+        0 <= start, start + utf8_encode(s).len() < buf.len(),
+        buf.subrange(start, start + utf8_encode(s).len()) == utf8_encode(s),
+        buf[start + utf8_encode(s).len()] == 0,
+        nul_free(utf8_encode(s)),
+        to_string_ok(buf, start, s2, i2),
+    ensures s2 == s, i2 == start + utf8_encode(s).len(),
+{
+    let e = utf8_encode(s);
+    let i = start + e.len();
+    vstd::utf8::encode_utf8_decode_utf8(s);
+    vstd::utf8::encode_utf8_valid_utf8(s);
+    assert forall|j: int| start <= j < i implies buf[j] != 0 by {
+        assert(buf[j] == buf.subrange(start, i)[j - start]);
+        assert(e[j - start] != 0);
+    }
+    assert(to_string_ok(buf, start, s, i));
+    lemma_to_string_unique(buf, start, s, i, s2, i2);
+}
+
+pub proof fn lemma_option_names()
+    ensures
+        forall|t: OptionType| nul_free(utf8_encode(#[trigger] option_name(t))),
+        forall|t: OptionType| option_of_name(str_lower(#[trigger] option_name(t))) == Ok::<OptionType, &'static str>(t),
+{
+    reveal_strlit("blksize"); reveal_strlit("tsize"); reveal_strlit("timeout"); reveal_strlit("windowsize");
+    assert forall|t: OptionType| nul_free(utf8_encode(#[trigger] option_name(t)))
+        && option_of_name(str_lower(option_name(t))) == Ok::<OptionType, &'static str>(t) by {
+        let n = option_name(t);
+        assert(vstd::utf8::is_ascii_chars(n));
+        vstd::utf8::is_ascii_chars_encode_utf8(n);
+        axiom_lower_fixed(n);
+        assert("blksize"@.len() == 7 && "tsize"@.len() == 5 && "timeout"@.len() == 7 && "windowsize"@.len() == 10);
+        assert("blksize"@[0] == 'b' && "timeout"@[0] == 't');
+    }
+}
+
+pub proof fn lemma_dec_str_nul_free(n: usize)
+    ensures nul_free(utf8_encode(dec_str(n))),
+{
+    axiom_dec_str(n);
+    let d = dec_str(n);
+    assert(vstd::utf8::is_ascii_chars(d)) by {
+        assert forall|i: int| 0 <= i < d.len() implies (#[trigger] d[i] as nat) < 128 by { assert('0' <= d[i] <= '9'); }
+    }
+    vstd::utf8::is_ascii_chars_encode_utf8(d);
+    assert forall|i: int| 0 <= i < utf8_encode(d).len() implies #[trigger] utf8_encode(d)[i] != 0 by { assert('0' <= d[i] <= '9'); }
+}
+
+/// `enc_opts` unfolds from the front as well
+pub proof fn lemma_enc_opts_front(o: Seq<TransferOption>)
+    requires o.len() > 0,
+    ensures enc_opts(o) == enc_opt(o[0]) + enc_opts(o.skip(1)),
+    decreases o.len(),
+{
+    if o.len() == 1 {
+        assert(o.drop_last() =~= Seq::<TransferOption>::empty());
+        assert(o.skip(1) =~= Seq::<TransferOption>::empty());
+        assert(enc_opts(o.drop_last()) =~= Seq::<u8>::empty());
+        assert(enc_opts(o) =~= enc_opt(o[0]) + enc_opts(o.skip(1)));
+    } else {
+        lemma_enc_opts_front(o.drop_last());
+        assert(o.drop_last().skip(1) =~= o.skip(1).drop_last());
+        assert(o.skip(1).last() == o.last());
+        assert(o.drop_last()[0] == o[0]);
+        assert(enc_opts(o) =~= enc_opt(o[0]) + enc_opts(o.skip(1)));
+    }
+}
+
+/// the option part: if the bytes behind the NUL at `z` are `enc_opts(o)`, the only list they decode to is `o`
+pub proof fn lemma_opts_roundtrip(buf: Seq<u8>, z: int, o: Seq<TransferOption>, q: Seq<TransferOption>)
+    requires
+        0 <= z < buf.len(),
+        buf.subrange(z + 1, buf.len() as int) == enc_opts(o),
+        opts_decode(buf, z, q),
+    ensures q == o,
+    decreases o.len(),
+{
+    if o.len() == 0 {
+        assert(buf.len() == z + 1);
+        assert(q =~= o);
+    } else {
+        lemma_enc_opts_front(o);
+        lemma_option_names();
+        let t = o[0].option;
+        let v = o[0].value;
+        lemma_dec_str_nul_free(v);
+        axiom_dec_str(v);
+        let en = utf8_encode(option_name(t));
+        let ev = utf8_encode(dec_str(v));
+        let rest = enc_opts(o.skip(1));
+        let tail = buf.subrange(z + 1, buf.len() as int);
+        assert(tail == en + seq![0u8] + ev + seq![0u8] + rest);
+        assert(tail.len() == en.len() + 1 + ev.len() + 1 + rest.len());
+        assert(z < buf.len() - 1);
+        let a = z + 1;
+        let b = a + en.len() + 1;
+        assert(buf.subrange(a, a + en.len()) =~= en) by {
+            assert forall|j: int| 0 <= j < en.len() implies buf[a + j] == en[j] by { assert(buf[a + j] == tail[j]); }
+        }
+        assert(buf[a + en.len()] == 0) by { assert(buf[a + en.len()] == tail[en.len() as int]); }
+        assert(buf.subrange(b, b + ev.len()) =~= ev) by {
+            assert forall|j: int| 0 <= j < ev.len() implies buf[b + j] == ev[j] by { assert(buf[b + j] == tail[en.len() + 1 + j]); }
+        }
+        assert(buf[b + ev.len()] == 0) by { assert(buf[b + ev.len()] == tail[(en.len() + 1 + ev.len()) as int]); }
+        let (name, z1, val, z2) = choose|name: Seq<char>, z1: int, val: Seq<char>, z2: int|
+            #[trigger] to_string_ok(buf, z + 1, name, z1) && #[trigger] to_string_ok(buf, z1 + 1, val, z2)
+            && (match option_of_name(str_lower(name)) {
+                Ok(t) => parse_spec::<usize>(val) is Some && q.len() > 0
+                    && q[0] == (TransferOption { option: t, value: parse_spec::<usize>(val)->Some_0 })
+                    && opts_decode(buf, z2, q.skip(1)),
+                Err(_) => opts_decode(buf, z2, q),
+            });
+        lemma_string_at(buf, a, option_name(t), name, z1);
+        assert(z1 + 1 == b);
+        lemma_string_at(buf, b, dec_str(v), val, z2);
+        let z2e = b + ev.len();
+        assert(z2 == z2e);
+        assert(buf.subrange(z2 + 1, buf.len() as int) =~= rest) by {
+            assert forall|j: int| 0 <= j < rest.len() implies buf[z2 + 1 + j] == rest[j] by { assert(buf[z2 + 1 + j] == tail[en.len() + 1 + ev.len() + 1 + j]); }
+        }
+        assert(q[0] == o[0]);
+        lemma_opts_roundtrip(buf, z2, o.skip(1), q.skip(1));
+        assert(q =~= o) by {
+            assert(q.len() == o.len());
+            assert forall|j: int| 0 <= j < q.len() implies q[j] == o[j] by {
+                if j > 0 { assert(q[j] == q.skip(1)[j - 1]); assert(o[j] == o.skip(1)[j - 1]); }
+            }
+        }
+    }
+}
+
+/// RRQ / WRQ body
+pub proof fn lemma_rq_roundtrip(buf: Seq<u8>, op: u8, f: Seq<char>, m: Seq<char>, o: Seq<TransferOption>,
+                                f2: Seq<char>, m2: Seq<char>, o2: Seq<TransferOption>)
+    requires
+        buf == seq![0u8, op] + utf8_encode(f) + seq![0u8] + utf8_encode(m) + seq![0u8] + enc_opts(o),
+        nul_free(utf8_encode(f)), nul_free(utf8_encode(m)),
+        rq_decodes(buf, f2, m2, o2),
+    ensures f2 == f, m2 == m, o2 == o,
+{
+    let ef = utf8_encode(f);
+    let em = utf8_encode(m);
+    let (z1, z2) = choose|z1: int, z2: int| #[trigger] to_string_ok(buf, 2, f2, z1) && #[trigger] to_string_ok(buf, z1 + 1, m2, z2) && opts_decode(buf, z2, o2);
+    assert(buf.len() == 2 + ef.len() + 1 + em.len() + 1 + enc_opts(o).len());
+    assert(buf.subrange(2, 2 + ef.len() as int) =~= ef);
+    assert(buf[2 + ef.len() as int] == 0);
+    lemma_string_at(buf, 2, f, f2, z1);
+    let b: int = 2 + ef.len() as int + 1;
+    assert(buf.subrange(b, b + em.len() as int) =~= em);
+    assert(buf[b + em.len() as int] == 0);
+    lemma_string_at(buf, b, m, m2, z2);
+    assert(buf.subrange(z2 + 1, buf.len() as int) =~= enc_opts(o));
+    lemma_opts_roundtrip(buf, z2, o, o2);
+}
+
+/// SPECIFICATION (C11): decoding the encoding of a packet (strings without NUL) can only return the identical packet.
+/// Together with `Packet::serialize`'s postcondition (`bytes == enc(p)`) and `Packet::deserialize`'s (`Ok(q) ==> decodes_to(bytes, q)`)
+/// this is the round trip.
+pub proof fn lemma_roundtrip(p: PktV, q: PktV)
+    requires strings_nul_free(p), decodes_to(enc(p), q),
+    ensures q == p,
+{
+    let buf = enc(p);
+    match p {
+        PktV::Rrq { filename, mode, options } => {
+            assert(buf[0] == 0 && buf[1] == 1);
+            assert(be16(buf, 0) == 1);
+            match q { PktV::Rrq { filename: f2, mode: m2, options: o2 } => { lemma_rq_roundtrip(buf, 1, filename, mode, options, f2, m2, o2); } _ => {} }
+        }
+        PktV::Wrq { filename, mode, options } => {
+            assert(buf[0] == 0 && buf[1] == 2);
+            assert(be16(buf, 0) == 2);
+            match q { PktV::Wrq { filename: f2, mode: m2, options: o2 } => { lemma_rq_roundtrip(buf, 2, filename, mode, options, f2, m2, o2); } _ => {} }
+        }
+        PktV::Data { block_num, data } => {
+            assert(buf[0] == 0 && buf[1] == 3 && buf[2] == (block_num / 256) as u8 && buf[3] == (block_num % 256) as u8);
+            assert(be16(buf, 0) == 3 && be16(buf, 2) == block_num);
+            assert(buf.subrange(4, buf.len() as int) =~= data);
+        }
+        PktV::Ack(n) => {
+            assert(buf[0] == 0 && buf[1] == 4 && buf[2] == (n / 256) as u8 && buf[3] == (n % 256) as u8);
+            assert(be16(buf, 0) == 4 && be16(buf, 2) == n);
+        }
+        PktV::Error { code, msg } => {
+            let c = errcode_num(code);
+            let em = utf8_encode(msg);
+            assert(buf[0] == 0 && buf[1] == 5 && buf[2] == 0 && buf[3] == c as u8);
+            assert(be16(buf, 0) == 5 && be16(buf, 2) == c);
+            assert(buf.len() == 4 + em.len() + 1);
+            assert(buf.subrange(4, 4 + em.len() as int) =~= em);
+            assert(buf[4 + em.len() as int] == 0);
+            match q {
+                PktV::Error { code: c2, msg: m2 } => {
+                    assert(c2 == code);
+                    vstd::utf8::encode_utf8_decode_utf8(msg);
+                    vstd::utf8::encode_utf8_valid_utf8(msg);
+                    assert(to_string_ok(buf, 4, msg, 4 + em.len() as int)) by {
+                        assert forall|j: int| 4 <= j < 4 + em.len() implies buf[j] != 0 by { assert(buf[j] == em[j - 4]); }
+                    }
+                    if exists|i: int| to_string_ok(buf, 4, m2, i) {
+                        let i = choose|i: int| to_string_ok(buf, 4, m2, i);
+                        lemma_string_at(buf, 4, msg, m2, i);
+                    }
+                }
+                _ => {}
+            }
+        }
+        PktV::Oack(options) => {
+            assert(buf[0] == 0 && buf[1] == 6);
+            assert(be16(buf, 0) == 6);
+            match q { PktV::Oack(o2) => {
+                assert(buf.subrange(2, buf.len() as int) =~= enc_opts(options));
+                lemma_opts_roundtrip(buf, 1, options, o2);
+            } _ => {} }
+        }
+    }
+}
+
 /// SPECIFICATION (C10, C11): `p` is what the datagram `buf` decodes to
 pub open spec fn decodes_to(buf: Seq<u8>, p: PktV) -> bool {
     buf.len() >= 2 && (match p {
         PktV::Data { block_num, data } => be16(buf, 0) == 3 && buf.len() >= 4 && block_num == be16(buf, 2) && data == buf.subrange(4, buf.len() as int),
         PktV::Ack(n) => be16(buf, 0) == 4 && buf.len() >= 4 && n == be16(buf, 2),
         PktV::Error { code, msg } => be16(buf, 0) == 5 && buf.len() >= 4 && errcode_num(code) == be16(buf, 2)
-            && ((exists|i: int| to_string_ok(buf, 4, msg, i)) || msg == "(no message)"@),
+            && ((exists|i: int| to_string_ok(buf, 4, msg, i)) || (msg == "(no message)"@ && no_string_at(buf, 4))),
         PktV::Rrq { filename, mode, options } => be16(buf, 0) == 1 && rq_decodes(buf, filename, mode, options),
         PktV::Wrq { filename, mode, options } => be16(buf, 0) == 2 && rq_decodes(buf, filename, mode, options),
         PktV::Oack(options) => be16(buf, 0) == 6 && opts_decode(buf, 1, options),
